@@ -35,3 +35,7 @@ func (E *Entry) VerifLoadedNow() bool {
 	defer E.entryLock.RUnlock()
 	return E.Loaded && E.CRLStore != nil
 }
+
+// VerifLoadedUnlocked reads the loaded flag without taking the entry lock (an observation for the harness only:
+// it must not wait for a refresh that holds the lock).
+func (E *Entry) VerifLoadedUnlocked() bool { return E.Loaded }
